@@ -57,6 +57,20 @@ pub fn pnm_str(t: &Tup) -> String {
     )
 }
 
+/// Heap allocations observed inside real scanner calls (every feed/poll/reset made through the
+/// `Scanner` view runs inside an allocation-counting region; C18 reads this).
+pub static API_ALLOCS: std::sync::atomic::AtomicU64 = std::sync::atomic::AtomicU64::new(0);
+pub static API_CALLS: std::sync::atomic::AtomicU64 = std::sync::atomic::AtomicU64::new(0);
+
+#[inline]
+pub fn monitored<R>(f: impl FnOnce() -> R) -> R {
+    let (r, n) = xs::alloc::region(f);
+    if n > 0 {
+        API_ALLOCS.fetch_add(n, Ordering::Relaxed);
+    }
+    r
+}
+
 /// Uniform view of the three real scanners.
 pub trait Scanner: Copy + PartialEq + Debug + Send + Sync + 'static {
     const NAME: &'static str;
@@ -129,10 +143,10 @@ pub fn debug_fp<T: Debug>(x: &T, now: u64, cap: u64) -> u128 {
 impl Scanner for ControlChange14BitMessageScanner {
     const NAME: &'static str = "ControlChange14BitMessageScanner";
     fn feed_msg<M: ShortMessage>(&mut self, m: &M) -> [Option<Tup>; 2] {
-        [self.feed(m).map(|x| tup_cc14(&x)), None]
+        [monitored(|| self.feed(m)).map(|x| tup_cc14(&x)), None]
     }
     fn reset_all(&mut self) {
-        self.reset()
+        monitored(|| self.reset())
     }
     fn predicate(cn: ControllerNumber) -> bool {
         cn.can_be_part_of_14_bit_control_change_message()
@@ -151,10 +165,10 @@ impl Scanner for ParameterNumberMessageScanner {
         Self::new()
     }
     fn feed_msg<M: ShortMessage>(&mut self, m: &M) -> [Option<Tup>; 2] {
-        [self.feed(m).map(|x| tup_pnm(&x)), None]
+        [monitored(|| self.feed(m)).map(|x| tup_pnm(&x)), None]
     }
     fn reset_all(&mut self) {
-        self.reset()
+        monitored(|| self.reset())
     }
     fn predicate(cn: ControllerNumber) -> bool {
         cn.is_parameter_number_message_controller_number()
@@ -172,14 +186,15 @@ impl Scanner for PollingParameterNumberMessageScanner {
         Self::new(core::time::Duration::from_millis(t))
     }
     fn poll_ch(&mut self, c: u8) -> Option<Tup> {
-        self.poll(ch(c)).map(|m| tup_pnm(&m))
+        let c = ch(c);
+        monitored(|| self.poll(c)).map(|m| tup_pnm(&m))
     }
     fn feed_msg<M: ShortMessage>(&mut self, m: &M) -> [Option<Tup>; 2] {
-        let r = self.feed(m);
+        let r = monitored(|| self.feed(m));
         [r[0].map(|x| tup_pnm(&x)), r[1].map(|x| tup_pnm(&x))]
     }
     fn reset_all(&mut self) {
-        self.reset()
+        monitored(|| self.reset())
     }
     fn predicate(cn: ControllerNumber) -> bool {
         cn.is_parameter_number_message_controller_number()
@@ -340,6 +355,9 @@ impl<O: PlainOracle> System for PlainSys<O> {
     type Action = PAct;
     type Key = O::M;
 
+    fn pid(&self) -> String {
+        self.pid.to_string()
+    }
     fn name(&self) -> String {
         format!("{}x{}[ch={},|alphabet|={},probes={},transparent={}]", <O::Sc as Scanner>::NAME, "refmodel", self.ch, self.alphabet.len(), self.probes.len(), self.noncontrib.len())
     }
